@@ -809,11 +809,67 @@ class World:
         return res
 
     def comprehension(self, eng, e, st):
-        for r in self.method_rules:
-            v = r(eng, VPy(('comprehension', e)), '__comp__', [], {}, st, e, None)
-            if v is not NotImplemented:
-                return v
-        raise Unsupported('comprehension', e)
+        """[val(x) for x in S if cond(x)]  is replaced by  F(args, S, 0)  for the recursive spec fold F named in the
+        contract, after checking that F is that fold: F(S, len) == [] and, for an arbitrary position i,
+        F(S, i) == ([val(S[i])] if cond(S[i]) else []) ++ F(S, i+1)   (the induction step of comprehension == F(S, 0))."""
+        if eng.spec_mode:
+            raise Unsupported('comprehension in a spec', e)
+        eng.comp_ord = getattr(eng, 'comp_ord', 0) + 1
+        k = eng.comp_ord
+        spec = getattr(eng.c, 'comps', {}).get(k)
+        if spec is None:
+            raise Unsupported(f'comprehension #{k} has no fold in the contract', e)
+        if len(e.generators) != 1 or e.generators[0].is_async:
+            raise Unsupported('comprehension with several generators', e)
+        g = e.generators[0]
+        if not isinstance(g.target, ast.Name) or (spec.get('var') and spec['var'] != g.target.id):
+            raise Unsupported(f'comprehension #{k} is keyed to variable {spec.get("var")!r}', e)
+        seq = eng.ev(g.iter, st)
+        for r in getattr(self, 'iter_rules', []):
+            conv = r(eng, seq, st, e)
+            if conv is not None:
+                seq = conv
+                break
+        if not (isinstance(seq, V) and isinstance(seq.t, TSeq)):
+            raise Unsupported(f'comprehension over {seq!r}', e)
+        sf = self.specs[spec['fold']]
+        rt = sf.ret
+        i = z3.Int(fresh_name(f'_ci{k}'))
+        s2 = st.copy()
+        s2.pc.append(z3.And(i >= 0, i < z3.Length(seq.term)))
+        x = V(seq.t.elem, seq.term[i])
+        s2.env[g.target.id] = x
+        s2.env[f'_cseq{k}'] = seq
+        s2.env[f'_ci{k}'] = V(INT, i)
+        for fact in spec.get('assume_elem', []):
+            s2.pc.append(eng.spec_bool(fact, s2))
+        cond = z3.BoolVal(True)
+        for c in g.ifs:
+            cv = eng.truthy(eng.ev(c, s2), c)
+            cond = z3.And(cond, cv)
+            s2.guards.append(cv)
+        val = eng.coerce(eng.ev(e.elt, s2), rt.elem, e)
+        s2.guards = list(st.guards)
+        outs = eng.flush_raises(s2)
+        if outs:
+            raise Unsupported('comprehension element may raise a caught/allowed exception', e)
+        args = spec.get('args', '')
+
+        def F(idx_text, state):
+            return eng.spec_eval(f"{spec['fold']}({args + ', ' if args else ''}_cseq{k}, {idx_text})", state)
+        lhs = F(f'_ci{k}', s2).term
+        s3 = s2.copy()
+        s3.env[f'_ci{k}'] = V(INT, i + 1)
+        nxt = F(f'_ci{k}', s3).term
+        step = lhs == z3.Concat(z3.If(cond, z3.Unit(val.term), z3.Empty(rt.sort())), nxt)
+        eng.oblige_raw(s2, 'comprehension-step', step, f'comprehension #{k} agrees with one unfolding of {spec["fold"]} at an arbitrary position')
+        s4 = st.copy()
+        s4.env[f'_cseq{k}'] = seq
+        s4.env[f'_ci{k}'] = V(INT, z3.Length(seq.term))
+        eng.oblige_raw(s4, 'comprehension-base', z3.Length(F(f'_ci{k}', s4).term) == 0, f'{spec["fold"]} is empty at the end of the sequence')
+        s5 = st.copy()
+        s5.env[f'_cseq{k}'] = seq
+        return F('0', s5)
 
 
 def eng_str_t(world):
